@@ -314,3 +314,25 @@ prop("C15", "exploration",
            # Eigen forms &dst(0,0) of an empty destination when the search space has no new column (0-column product): benign inside Eigen, not the library's code
            flags=["-fno-sanitize=null,pointer-overflow"])],
      assumptions=TRUST)
+
+
+# ------------------------------------------------------------------------------------------ C16
+prop("C16", "exploration",
+     "PartialSVDSolver on tall, wide and square matrices (3..40, 80 thorough), dense column-/row-major and sparse column-/row-major, five input kinds (prescribed singular values, gaussian, exactly rank-deficient, "
+     "tail at 1e-9, scaled by 1e-6..1e6), ncomp 1..min(m,n)-1, ncv incl. the full dimension, two successive compute(maxit, tol) calls with different arguments followed by a fresh solver run with the second "
+     "arguments. Always: singular values finite, non-negative, non-increasing, as many as compute() returned; matrix_U(k)/matrix_V(k) with min(k, nconv) columns for every k in 0..ncomp+2. For singular values "
+     "above 1e-4 ||A||: agreement with Eigen's JacobiSVD within (4 tol + 200 n u)||A||^2/s, U'U = I and V'V = I within (4 tol + 200 n u)(||A||/s_min)^2, ||AV - US||, ||A'U - VS|| within (4 tol + 200 n u)||A||^2/s_min; "
+     "after the second compute() all accessors byte-identical to the fresh solver. Non-trivial = a run that returned at least one triplet; distinct by parameters",
+     [dict(name="c16_svd", sources=["c16_svd.cpp"], flavour="asan", deps=["common/gen.hpp", "common/oracle.hpp"])],
+     assumptions=TRUST)
+
+
+# ------------------------------------------------------------------------------------------ C17
+prop("C17", "exploration",
+     "LOBPCGSolver<double> on pencils (A, B) with prescribed, well separated smallest eigenvalues (n 30..90, 200 thorough), B = I or SPD with condition <= 100, with / without a diagonal preconditioner, "
+     "gaussian initial blocks of size k with 5k < n (k = 1 and k >= 10 included: the inner solver rejects them, which counts as 'no success reported'), tol*n from 1e-5*n, maxit 5..150. "
+     "When info() == Success: eigenvalues() ascending and equal to the k smallest reference eigenvalues (Eigen's generalized solver) within 4 tol n / sqrt(lambda_min(B)); eigenvectors() n x k with X'BX = I; "
+     "A X - B X diag(lambda) column norms below tol*n; residuals() column norms below tol*n and equal to A X - B X diag(lambda) for the private iterate X read through the guarded friend. "
+     "Otherwise: info() != Success or the exception propagated. Non-trivial = a run that reported success (or a rejected block size); distinct by parameters",
+     [dict(name="c17_lobpcg", sources=["c17_lobpcg.cpp"], flavour="asan", deps=["common/gen.hpp", "common/oracle.hpp", "common/fachook.hpp"], flags=["-fno-sanitize=null,pointer-overflow"])],
+     assumptions=TRUST + ["UBSan's null / pointer-overflow checks are off in this driver (Eigen-internal handling of empty sparse products)"])
